@@ -24,8 +24,10 @@ Inductive core :=
 | KMath (display : bool) (dl dr : str) (verb : str) (body : list core)
                                             (* formula; [verb] is its source text, delimiters included *)
 | KEnvBody (body : list core)               (* itemize / enumerate / unknown environment: rendered as its body *)
-| KEnvWrap (pre post : str) (body : list core).
+| KEnvWrap (pre post : str) (body : list core)
                                             (* center: its body between two fixed strings (template "pre%spost") *)
+| KAccent (comb : N) (arg : core).          (* accent macro \'{e} \hat{a} \c c : every character of the (stripped)
+                                               argument text composed with the combining mark [comb] *)
 
 (** * The rules *)
 
@@ -42,6 +44,7 @@ Definition glue (sl : sls) (prev : option core) (k : core) : str :=
   end.
 
 Section Render.
+  Variable accent : N -> N -> str.   (* a character composed with a combining mark (NFC of the pair) *)
   Variable o : opts.
 
   Fixpoint render1 (sl : sls) (k : core) {struct k} : str :=
@@ -79,6 +82,8 @@ Section Render.
         end
     | KEnvBody body => seq sl None body       (* list-like and unknown environments render their body *)
     | KEnvWrap pre post body => pre ++ seq sl None body ++ post
+    | KAccent comb arg =>                     (* accents: each character of the argument gets the mark *)
+        flat_map (fun ch => accent ch comb) (py_strip (render1 sl arg))
     end.
 
   (** a sequence of items after the item [prev] *)
@@ -153,6 +158,12 @@ Section Abstract.
     | Some {| t_repl := RCall CItem; t_discard := _ |} => true
     | _ => false
     end.
+  (** an accent macro *)
+  Definition accent_macro (nm : str) : option N :=
+    match assoc (lt_macros lt) nm with
+    | Some {| t_repl := RCall (CAccent comb); t_discard := _ |} => Some comb
+    | _ => None
+    end.
   Definition item_text : str := [10; 32; 32; 42; 32]%N.      (* "\n  * " *)
 
   Definition no_arg_nodes (a : option pargs) : bool :=
@@ -177,9 +188,18 @@ Section Abstract.
         if str_eqb dl [123%N] && str_eqb dr [125%N] then option_map KGroup (abs_body b) else None
     | NMacro _ _ _ nm post a =>
         match a with
-        | Some (sp, [Some (NGroup _ _ _ _ _ b)]) =>
-            if list_eqb str_eqb sp [[123%N]] && transparent_macro nm
-            then option_map KTransparent (abs_body b) else None
+        | Some (sp, [Some x]) =>
+            if list_eqb str_eqb sp [[123%N]] then
+              match accent_macro nm with
+              | Some comb => option_map (KAccent comb) (abstract x)   (* the argument: a braced group or one token *)
+              | None =>
+                  match x with
+                  | NGroup _ _ _ _ _ b =>
+                      if transparent_macro nm then option_map KTransparent (abs_body b) else None
+                  | _ => None
+                  end
+              end
+            else None
         | Some (sp, [None]) =>            (* \item without its optional argument: a bare macro standing for "\n  * " *)
             if list_eqb str_eqb sp [[91%N]] && item_macro nm then Some (KSymbol item_text post) else None
         | _ => if no_arg_nodes a then option_map (fun r => KSymbol r post) (symbol_repl nm) else None
@@ -220,6 +240,7 @@ Section Embed.
   Variable fmt_name : str.                (* the formatting macro used for [KTransparent] *)
   Variable env_name : str.                (* the environment used for [KEnvBody] *)
   Variable wrap_name : str -> str -> str. (* the environment used for [KEnvWrap pre post] *)
+  Variable acc_name : N -> str.           (* the accent macro for a combining mark *)
   Variable sym_name : str -> str.         (* the macro name standing for a replacement string *)
   Variable spc_chars : str -> str.        (* the specials characters standing for a replacement string *)
   Variable verb_pos : str -> nat * nat.   (* where the source text of a formula lies in the source *)
@@ -241,6 +262,7 @@ Section Embed.
         NMath (fst (verb_pos verb)) (snd (verb_pos verb)) text_mode d dl dr (body b)
     | KEnvBody b => NEnv 0 0 text_mode env_name (Some ([], [])) (body b)
     | KEnvWrap pre post b => NEnv 0 0 text_mode (wrap_name pre post) (Some ([], [])) (body b)
+    | KAccent comb arg => NMacro 0 0 text_mode (acc_name comb) [] (Some ([[123%N]], [Some (embed arg)]))
     end.
   Fixpoint embed_items (l : list core) : list (option node) :=
     match l with [] => [] | k :: r => Some (embed k) :: embed_items r end.
@@ -261,6 +283,7 @@ Section Embed.
     | KEnvBody b => transparent_env lt env_name = true /\ all b
     | KEnvWrap pre post b =>
         wrap_env lt (wrap_name pre post) = Some (pre, post) /\ all b
+    | KAccent comb arg => accent_macro lt (acc_name comb) = Some comb /\ core_ok arg
     end.
   Fixpoint cores_ok (l : list core) : Prop :=
     match l with [] => True | k :: r => core_ok k /\ cores_ok r end.
